@@ -226,9 +226,9 @@ fn entries_for<S: Prim, T: Prim>(out: &mut Vec<Entry>) {
 /// explore one table entry (non-generic)
 fn explore(rep: &mut Report, e: &Entry) {
     let (n, al) = (e.n, e.alpha.len());
-    let cap = rep.pick(2_000usize, 60_000);
+    let cap = rep.pick(2_000usize, 300_000);
     let full = al.checked_pow(n as u32).map_or(false, |x| x <= cap);
-    let k = if n <= 4 { 2 } else { rep.pick(1, 2) };
+    let k = if n <= 4 { rep.pick(2, 3) } else { rep.pick(1, 2) };
     let dev = DevSpace::new(n, al, k);
     let total = if full { al.pow(n as u32) } else { dev.len() };
     let name = e.comp;
